@@ -112,6 +112,40 @@ def run(ctx):
         except Exception as e:
             import traceback
             ctx.fail(klass, 'implementation raised %r' % e, dict(rep, tb=traceback.format_exc()[-600:]))
+    # a single operator (a Pauli object, not a list) through gates, layers and circuits: same first pass as the oracle, same return
+    for _ in range(ctx.budget(60, 600)):
+        N = rng.choice([1, 2, 3, 3, 4])
+        prog = CU.rand_program(rng, N, rng.choice([1, 1, 2, 3, 5]), kinds=('gen', 'gen', 'fmap', 'bmap', 'named', 'cnot'))
+        P = G.rand_op(rng, N)
+        for conf in ('gate', 'circuit', 'compiled'):
+            try:
+                if conf == 'gate':
+                    prog1 = prog[:1]
+                    obj = CU.impl_gate(impl, prog1[0])
+                else:
+                    prog1 = prog
+                    obj = CI.CliffordCircuit(N)
+                    for d in prog1:
+                        obj.take(CU.impl_gate(impl, d))
+                    if conf == 'compiled':
+                        obj.compile()
+                ctx.case(('single-operator', str(prog1), P, conf), True, sample=dict(op='single Pauli round trip', N=N, how=conf, P=P))
+                ctx.count('single-operator:' + conf)
+                for order in ('fb', 'bf'):
+                    f1, f2 = (obj.forward, obj.backward) if order == 'fb' else (obj.backward, obj.forward)
+                    Q = impl.pauli(P)
+                    f1(Q)
+                    mid = impl.ops_of(Q)
+                    want_mid = (CU.oracle_forward(prog1, [P]) if order == 'fb' else CU.oracle_backward(prog1, [P]))[0]
+                    if mid != want_mid:
+                        ctx.fail('%s.%s' % (type(obj).__name__, 'forward' if order == 'fb' else 'backward'), 'a single operator: first pass is %s, gate-by-gate %s (%s)' % (mid, want_mid, conf),
+                                 dict(N=N, program=prog1, P=P, how=conf))
+                    f2(Q)
+                    if impl.ops_of(Q) != (P[0], P[1] % 4):
+                        ctx.fail('%s.backward' % type(obj).__name__, 'a single operator is not restored by %s (%s): %s' % ('backward after forward' if order == 'fb' else 'forward after backward', conf, impl.ops_of(Q)),
+                                 dict(N=N, program=prog1, P=P, how=conf))
+            except Exception as e:
+                ctx.fail('CliffordCircuit', 'implementation raised %r on a single operator (%s)' % (e, conf), dict(N=N, program=prog, P=P))
     # every numbered single-qubit Clifford C(k) (several are of order 3 or 4, i.e. not their own inverse), alone, in a circuit and
     # compiled: backward undoes forward and forward undoes backward on operators with every phase and on signed mixed tableaux
     for k in range(24):
